@@ -1008,6 +1008,9 @@ class Columns(Widget, WidgetContainerMixin, WidgetContainerListContentsMixin):
         canvas = CanvasJoin(data)
         if size and canvas.cols() < size[0]:
             canvas.pad_trim_left_right(0, size[0] - canvas.cols())
+        if len(size) == 1 and not canvas.rows():
+            # rows() promises at least one row, also when every column shown is empty
+            canvas.pad_trim_top_bottom(0, 1)
         return canvas
 
     def get_cursor_coords(self, size: tuple[()] | tuple[int] | tuple[int, int]) -> tuple[int, int] | None:
